@@ -31,6 +31,8 @@ func checkC14(c *Ctx, w *World) {
 	// for (never copies), i.e. table values are only ever fresh newEndpoint results stored under their own id (C13.member),
 	// and the table is written only by its two builders
 	importPremises(c, w, "C13", checkC13, []string{"C13.member", "C13.nonempty"}, "C14.identity")
+	// convergence is to "the highest-priority available endpoint": what a re-evaluation decides is C13's decision table
+	importPremises(c, w, "C13", checkC13, []string{"C13.decision", "C13.fallback-first"}, "C14.decision")
 
 	// ---- C14.converge: the last input (report, list replacement, recovery timer) re-evaluates current before it returns
 	reevalRules(m, c, func(string) string { return "C14.converge" })
